@@ -245,8 +245,12 @@ def main(argv=None):
         "wall_s": round(wall, 2),
         "violations": len(new_violations),
     }
-    os.makedirs(os.path.join(ROOT, "evidence"), exist_ok=True)
-    evpath = os.path.join(ROOT, "evidence", f"{prop}.json")
+    # evidence about another tree than /repo (mutant validation with VF_REPO) must never overwrite the real evidence
+    evdir = os.environ.get("VF_EVIDENCE_DIR") or (
+        os.path.join(ROOT, "evidence") if os.path.realpath(bootstrap.REPO) == "/repo" else os.path.join(tempfile.gettempdir(), "vf_evidence_scratch")
+    )
+    os.makedirs(evdir, exist_ok=True)
+    evpath = os.path.join(evdir, f"{prop}.json")
     tmp = evpath + ".tmp"
     with open(tmp, "w") as fh:
         json.dump(evidence, fh, indent=1, default=str)
